@@ -39,7 +39,7 @@ import os
 import shutil
 import tempfile
 
-from vlib.harness import Check, Mismatch, Stage
+from vlib.harness import Check, Mismatch, Part, Stage
 
 NAMES = ["n0", "n1", "n2"]
 DIRS = ["d0", "d1", "d2"]
@@ -159,6 +159,9 @@ class Sim:
             f.write(body_of(version))
         os.utime(p, (mtime, mtime))
         self.files[p] = [version, mtime]
+        # (cook counts are compared between reads that have no modification
+        # between them - the file may come back to an earlier time stamp)
+        self.cooks.pop(p, None)
 
     def op_touch(self, d, n, mtime):
         p = self.path(d, n)
@@ -167,6 +170,7 @@ class Sim:
         mtime = self.fresh_mtime(p, mtime)
         os.utime(p, (mtime, mtime))
         self.files[p][1] = mtime
+        self.cooks.pop(p, None)
 
     def op_render(self, d, n):
         p = self.path(d, n)
@@ -432,7 +436,7 @@ class Sim:
         if got != want:
             raise Violation("whole-template use gives %r, latest version "
                             "gives %r" % (got, want))
-        self.lastread[p] = self.files[p][1]
+        self.check_cooks(p, t)
 
     def op_load_dotdir(self, d, n, form, auto_reload, ext):
         """Names whose only dot is in a directory part: they have a dot, so
@@ -572,7 +576,11 @@ def campaign(args):
              "failures": [], "samples": [], "found": []}
     versions = st.tuples(st.sampled_from([0] + list(range(1, 10)) * 2),
                          st.integers(0, 7), st.booleans()).map(list)
-    mtimes = st.integers(1_000_000_000, 1_000_000_040)
+    # (the epoch itself is a time stamp like any other: archives and
+    # reproducible builds zero them)
+    mtimes = st.one_of(st.integers(1_000_000_000, 1_000_000_040),
+                       st.integers(1_000_000_000, 1_000_000_040),
+                       st.sampled_from([0, 1, 2]))
     # biased so that histories keep coming back to the same file
     D = st.sampled_from([0, 1, 1, 1, 2])
     N = st.sampled_from([0, 0, 0, 1, 2])
@@ -687,6 +695,142 @@ def campaign(args):
     return stats
 
 
+# -- package-relative specs --------------------------------------------------
+
+PKG_MAIN = ('<div tal:define="part load: part.pt">[<span '
+            'metal:use-macro="part" />]</div>')
+
+
+class PackageSpecs(Part):
+    """Templates named by a package-relative spec (pkg:main.pt,
+    pkg:sub/main.pt, PageTemplateFile(name, package_name=...)) or by path:
+    a load: expression inside them looks next to the template first, then
+    along the search path; the package-relative template renders like the
+    file it names."""
+    name = "packagespecs"
+    examples = {"quick": 150, "thorough": 3000}
+    floors = {"package_top": 0.2}
+
+    def strategy(self, tier):
+        from hypothesis import strategies as st
+        return st.fixed_dictionaries({
+            # where the template lives inside the package
+            "where": st.sampled_from(["top", "top", "sub", "sub/deep"]),
+            # how it is opened
+            "how": st.sampled_from(["loader_spec", "loader_spec",
+                                    "file_package", "file_package_sp",
+                                    "loader_path", "file_path"]),
+            # is there a part.pt next to it / in the other places
+            "sibling": st.booleans(),
+            "in_other": st.booleans(),
+            "in_top": st.booleans(),
+            "auto_reload": st.booleans(),
+        })
+
+    def labels(self, case):
+        if case["where"] == "top" and case["how"] in (
+                "loader_spec", "file_package", "file_package_sp"):
+            yield "package_top"
+        yield "how_" + case["how"]
+
+    def nontrivial(self, case):
+        return case["sibling"] and (case["in_other"] or case["in_top"])
+
+    def setup_shard(self, tier, shard):
+        import sys
+        self.tmp = tempfile.mkdtemp(prefix="c16-pkg-")
+        sys.path.insert(0, self.tmp)
+        self.n = 0
+
+    def teardown_shard(self):
+        import sys
+        tmp = getattr(self, "tmp", None)
+        if tmp:
+            if tmp in sys.path:
+                sys.path.remove(tmp)
+            shutil.rmtree(tmp, ignore_errors=True)
+
+    def oracle(self, case):
+        import importlib
+        import sys
+        from chameleon import PageTemplateFile
+        from chameleon.zpt.loader import TemplateLoader
+        from vlib.cham import run
+        if not getattr(self, "tmp", None):
+            self.setup_shard(None, 0)
+        self.n += 1
+        pkg = "c16pkg_%d_%d" % (os.getpid(), self.n)
+        root = os.path.join(self.tmp, pkg)
+        other = os.path.join(self.tmp, pkg + "_other")
+        rel = "" if case["where"] == "top" else case["where"]
+        home = os.path.join(root, rel)
+        os.makedirs(home, exist_ok=True)
+        os.makedirs(other)
+        files = {os.path.join(root, "__init__.py"): "",
+                 os.path.join(home, "main.pt"): PKG_MAIN}
+        if case["sibling"]:
+            files[os.path.join(home, "part.pt")] = "<b>next to it</b>"
+        if case["in_other"]:
+            files[os.path.join(other, "part.pt")] = "<b>other dir</b>"
+        if case["in_top"] and case["where"] != "top":
+            files[os.path.join(root, "part.pt")] = "<b>package top</b>"
+        for path, text in files.items():
+            with open(path, "w", encoding="utf-8") as f:
+                f.write(text)
+        importlib.invalidate_caches()
+        spec = pkg + ":" + (rel + "/" if rel else "") + "main.pt"
+        kw = {"auto_reload": case["auto_reload"]}
+        how = case["how"]
+        search = [other]
+        if how == "loader_spec":
+            make = lambda: TemplateLoader([other], **kw).load(spec)
+        elif how == "file_package":
+            make = lambda: PageTemplateFile(
+                (rel + "/" if rel else "") + "main.pt", package_name=pkg,
+                **kw)
+            search = []
+        elif how == "file_package_sp":
+            make = lambda: PageTemplateFile(
+                (rel + "/" if rel else "") + "main.pt", package_name=pkg,
+                search_path=[other], **kw)
+        elif how == "loader_path":
+            make = lambda: TemplateLoader([other], **kw).load(
+                os.path.join(home, "main.pt"))
+        else:
+            make = lambda: PageTemplateFile(
+                os.path.join(home, "main.pt"), search_path=[other], **kw)
+        if case["sibling"]:
+            want = "<div>[<b>next to it</b>]</div>"
+        elif case["in_other"] and search:
+            want = "<div>[<b>other dir</b>]</div>"
+        else:
+            want = None           # nothing matches: an error, not a guess
+        try:
+            o = run(make)
+            if o.ok:
+                o = run(o.value.render)
+            got = o.value if o.ok else "exc " + o.exc_name
+            detail = {"case": case, "spec": spec, "got": got, "want": want}
+            if want is None:
+                if o.ok:
+                    return Mismatch("packagespecs:found a part that is "
+                                    "neither next to the template nor on "
+                                    "the search path", detail)
+                return None
+            if got != want:
+                return Mismatch("packagespecs:load: did not resolve next to "
+                                "the template first (%s, %s)" % (
+                                    how, case["where"]), dict(
+                                    detail, outcome=None if o.ok
+                                    else o.brief()))
+            return None
+        finally:
+            for name in [m for m in sys.modules if m.split(".")[0] == pkg]:
+                del sys.modules[name]
+            shutil.rmtree(root, ignore_errors=True)
+            shutil.rmtree(other, ignore_errors=True)
+
+
 CHECK = Check(
     "C16", "exploration",
     rule=("rule-based state machine: histories of up to 30 (quick) / 50 "
@@ -695,7 +839,12 @@ CHECK = Check(
           "files x 3 search directories, mtimes drawn from a 40-second window "
           "(may move backwards); non-trivial = the history renders a file "
           "after at least one rewrite of an existing file; distinct by the "
-          "operation list"),
+          "operation list; packagespecs: a template with a load: expression "
+          "at the top / in a sub-directory of a fresh package, opened in 6 "
+          "ways (package-relative spec through a loader, package_name "
+          "option, path), with the loaded name present next to it / on the "
+          "search path / at the package top or not"),
+    parts=[PackageSpecs()],
     stages=[Machine()],
     assumptions=[
         "a rewrite always changes the file's mtime (a change that keeps the "
